@@ -491,6 +491,22 @@ def run(ctx):
     conds = [render(kids(n)[0], False) for n in ad.walk() if n["k"] == "IfStmt"]
     ok = any("(!entry)" in c and "this->head == entry" in c for c in conds) and any(c == "(!this->head)" for c in conds)
     R.ob("C01-R6", ok, ad.q, "guards: null entry / already head / empty ring", "%s:%d" % (ad.relfile, ad.d["line"]), "conditions %s" % conds)
+    # every handle that names the object is in its ring (free() and the destructors reset the handles by walking it): addRef may decline
+    # to link only a null entry or the entry that already is the head - in particular not depending on useRefs (dontUseRefs() stops counting, not tracking)
+    def disjuncts(e):
+        e = strip(e)
+        if e["k"] == "BinaryOperator" and e.get("op") == "||":
+            return disjuncts(kids(e)[0]) + disjuncts(kids(e)[1])
+        return [e]
+    link_ws = [n for n in ad.walk() if write_target(n) is not None and render(strip(write_target(n)), False) == "this->head"]
+    for ifs in [n for n in ad.walk() if n["k"] == "IfStmt" and not n.get("mac") and any(x["k"] == "ReturnStmt" for x in walk(kids(n)[1]))
+                and not any(write_target(x) is not None for x in walk(kids(n)[1]))]:     # a return that links nothing
+        atoms = [render(a_, False).replace(" ", "") for a_ in disjuncts(kids(ifs)[0])]
+        allowed = {"(!entry)", "!entry", "(entry==NULL)", "(entry==nullptr)", "(this->head==entry)", "this->head==entry", "(entry==this->head)", "entry==this->head"}
+        extra = [a_ for a_ in atoms if a_ not in allowed]
+        R.ob("C01-R6", not extra, ad.q, "early exit of addRef only for a null entry or the current head", ad.site(ifs),
+             "declines: %s" % atoms if not extra else
+             "addRef also declines to link the handle when %s: a handle copied / assigned in that state is not in the ring, free() through another handle leaves it dangling (isInitialized() stays true, its destructor touches the destroyed object)" % ", ".join(extra))
     for rm in ring["removeRef"]:
         a = assigns(rm)
         hw = {v for (t_, v) in a if t_ == "this->head"}
